@@ -1147,6 +1147,18 @@ func main() {
 	bspPuts, bspGets := bspPoolCallers(filepath.Join(*repo, "byteslicepool/byteslicepool.go"))
 	ivWrites := analyseDefaultIV(filepath.Join(*repo, "crypto/aeskw"))
 
+	// inventory of every package-level variable of the anchored packages
+	var allVars []*pkgVar
+	for _, rel := range []string{"schemes/enc/v1", "byteslicepool", "logger", "cron", "crypto", "crypto/aeskw", "crypto/padding", "crypto/aescbcaead"} {
+		pi := loadPkg(*repo, rel)
+		guards := map[string]string{}
+		if rel == "logger" {
+			// analyseLogger has checked that every function touching globalLoggers takes this lock first
+			guards["globalLoggers"] = "globalLoggersLock"
+		}
+		allVars = append(allVars, pi.inventory(guards)...)
+	}
+
 	var b strings.Builder
 	b.WriteString("import KitModel.PoolOwnership\nimport KitModel.Containers\n")
 	b.WriteString("/-! GENERATED by harness/cmd/factgen_c08 from schemes/enc/v1/scheme.go, logger/*.go, cron/*.go,\ncrypto/aeskw/*.go, byteslicepool/byteslicepool.go — do not edit; bin/check rewrites it on every run. -/\n")
@@ -1193,6 +1205,7 @@ func main() {
 	fmt.Fprintf(&b, "/-- uses of the package-level byte slice `aeskw.defaultIV` other than reading it (copy source, comparison operand) -/\ndef aeskwDefaultIVWrites : List String := %s\n\n", leanStrs(ivWrites))
 	fmt.Fprintf(&b, "/-- how far `ByteSlicePool.Get` clears a recycled slice -/\ndef bspZeroTo : ZeroTo := .%s\n\n", zeroTo)
 	fmt.Fprintf(&b, "/-- the functions of byteslicepool.go that hand a slice to the pool / take one out of it -/\ndef bspPutCallers : List String := %s\ndef bspGetCallers : List String := %s\n\n", leanStrs(bspPuts), leanStrs(bspGets))
+	emitPkgVars(&b, allVars)
 	b.WriteString("end Kit.Generated.C08\n")
 	if *out == "" {
 		fmt.Print(b.String())
